@@ -96,7 +96,7 @@ pub fn run(a: &Args, shard: u64, shards: u64) -> Report {
 fn run_inner(a: &Args, shard: u64, shards: u64) -> Report {
     let mut rep = Report::new();
     let mine = |i: u64| i % shards == shard;
-    let low: u64 = if a.miri { 64 } else if a.thorough { 1 << 24 } else { 1 << 16 };
+    let low: u64 = if a.miri { 64 } else if a.thorough { 1 << 24 } else { 1 << 20 };
     let block = 1u64 << 10;
     let mut b = 0;
     while b * block < low {
